@@ -1,4 +1,110 @@
-From Coq Require Import ZArith List.
-From Urwid Require Import PyBase PyList MonitoredList.
-Theorem placeholder : 1 = 1. Proof. reflexivity. Qed.
-Print Assumptions placeholder.
+(* C16 - Focus-tracking lists behave as Python lists whose focus follows its item.
+   Only statements here; every proof is [exact <lemma>] into Proofs/MonitoredListProofs.v.
+   The model's focus arithmetic is [adjust_focus_gen], regenerated from
+   /repo/urwid/widget/monitored_list.py on every run. *)
+From Coq Require Import ZArith List Bool.
+Import ListNotations.
+From Urwid Require Import PyBase PyList monitored_list_gen MonitoredList PyListFacts MonitoredListProofs.
+Open Scope Z_scope.
+
+(* --- clause 1+2a: contents and errors are those of a built-in list; a failed call changes
+       nothing and fires no callback; the focus stays valid.  Every operation, any indices,
+       any steps, no bound on sizes. --- *)
+Theorem mfl_refines_list_and_stays_valid :
+  forall s o, Valid s ->
+    Valid (fst (step s o)) /\
+    match list_step (items s) o with
+    | Ok l' => items (fst (step s o)) = l' /\ o_err (snd (step s o)) = None
+    | Err e => fst (step s o) = s /\ o_err (snd (step s o)) = Some e /\ o_events (snd (step s o)) = []
+    end.
+Proof. exact step_sound. Qed.
+Print Assumptions mfl_refines_list_and_stays_valid.
+
+(* --- clause 2: for every reachable state (any operation sequence) the focus is None exactly
+       when the list is empty and otherwise in range --- *)
+Theorem mfl_focus_valid_all_histories :
+  forall ops s, Valid s ->
+    match focus (fst (run s ops)) with
+    | None => items (fst (run s ops)) = []
+    | Some f => items (fst (run s ops)) <> [] /\ 0 <= f < zlen (items (fst (run s ops)))
+    end.
+Proof. intros ops s Hv. apply valid_focus_observable. apply run_preserves. exact Hv. Qed.
+Print Assumptions mfl_focus_valid_all_histories.
+
+(* --- clause 3 (focus follows its item), operations that remove one contiguous block [p,q)
+       and insert xs there: item/slice(step 1) assignment and deletion, insert, append, extend,
+       pop, remove, +=, *=, clear --- *)
+Theorem mfl_focus_tracks_item_contiguous :
+  forall s o p q xs, Valid s -> items s <> [] -> splice_of (items s) o = Some (p, q, xs) ->
+    items (fst (step s o)) = splice (items s) p q xs /\
+    (items (fst (step s o)) <> [] ->
+       let l := items s in let l' := items (fst (step s o)) in
+       let f := focus_raw s in let f' := focus_raw (fst (step s o)) in let k := zlen xs in
+       (* the focused item was not in the removed block: the focus still designates it *)
+       ((f < p \/ q <= f) -> nthz l' f' = nthz l f) /\
+       (* replaced in place: same position *)
+       (p <= f < Z.min q (p + k) -> f' = f) /\
+       (* removed: the item following the removed ones, else the last item *)
+       (p + k <= f < q -> if q <? zlen l then nthz l' f' = nthz l q else f' = zlen l' - 1)).
+Proof. exact focus_tracks_contiguous. Qed.
+Print Assumptions mfl_focus_tracks_item_contiguous.
+
+Theorem mfl_focus_tracks_item_reverse :
+  forall s, Valid s -> items s <> [] ->
+    nthz (items (fst (step s Reverse))) (focus_raw (fst (step s Reverse))) = nthz (items s) (focus_raw s).
+Proof. exact focus_tracks_reverse. Qed.
+Print Assumptions mfl_focus_tracks_item_reverse.
+
+Theorem mfl_focus_tracks_item_sort :
+  forall s rv, Valid s -> items s <> [] ->
+    nthz (items (fst (step s (Sort rv)))) (focus_raw (fst (step s (Sort rv)))) = nthz (items s) (focus_raw s).
+Proof. exact focus_tracks_sort. Qed.
+Print Assumptions mfl_focus_tracks_item_sort.
+
+(* The full clause 3 covers extended-step slices too.  It is stated here and NOT proved: the
+   three theorems above are its [_partial] form (everything except deletion/assignment with
+   |step| >= 2); the remaining case is decided by the correspondence + oracle search only. *)
+Definition fresh_items (o : op) (l : list Z) : Prop :=
+  match o with
+  | SetItem _ x | Insert _ x | Append x => ~ In x l
+  | SetSlice _ _ _ xs | Extend xs | IAdd xs => forall x, In x xs -> ~ In x l
+  | _ => True
+  end.
+Definition mfl_focus_tracks_item_full : Prop :=
+  forall s o v, Valid s -> NoDup (items s) -> NoDup (items (fst (step s o))) -> fresh_items o (items s) ->
+    o_err (snd (step s o)) = None ->
+    nthz (items s) (focus_raw s) = Some v -> In v (items (fst (step s o))) ->
+    nthz (items (fst (step s o))) (focus_raw (fst (step s o))) = Some v.
+
+(* --- clause 4: callbacks --- *)
+Theorem mfl_callbacks :
+  forall s o, Valid s ->
+    let R := step s o in
+    (o_err (snd R) <> None -> o_events (snd R) = []) /\
+    (n_modified (o_events (snd R)) <= 1)%nat /\
+    (o_err (snd R) = None -> items (fst R) <> items s -> n_modified (o_events (snd R)) = 1%nat) /\
+    (forall a b, o_err (snd R) = None -> focus s = Some a -> focus (fst R) = Some b ->
+       focus_events (o_events (snd R)) = if b =? a then [] else [b]).
+Proof. exact step_callbacks. Qed.
+Print Assumptions mfl_callbacks.
+
+(* --- the translated function is what the proofs are about --- *)
+Theorem mfl_translated_function_meets_its_spec :
+  forall n f a b st k, adjust_focus_gen n f a b st k = adjust_spec n f a b st k.
+Proof. exact adjust_focus_gen_spec. Qed.
+Print Assumptions mfl_translated_function_meets_its_spec.
+
+(* --- non-vacuity: the hypotheses are met by ordinary states, and the model computes --- *)
+Example valid_somewhere : Valid (init [10; 11; 12; 13] 1) /\ items (init [10; 11; 12; 13] 1) <> [].
+Proof. split; [right; cbn; split; reflexivity || discriminate | discriminate]. Qed.
+
+Example splice_somewhere :
+  splice_of [10; 11; 12; 13] (DelSlice (Some 1) (Some 3) None) = Some (1, 3, []).
+Proof. reflexivity. Qed.
+
+Example run_somewhere :
+  let '(s, outs) := run (init [10; 11; 12; 13] 1)
+                        [DelSlice (Some 3) (Some 1) (Some (-1)); Insert 0 7; SetFocus 9] in
+  (items s, focus s, map (fun x => o_err (fst x)) outs)
+  = ([7; 10; 11], Some 2, [None; None; Some IndexError]).
+Proof. vm_compute. reflexivity. Qed.
